@@ -602,7 +602,12 @@ def _apply_shadow(res, shadow):
 
 def array_ufunc(ufunc, method, inputs, out, kwargs):
     if out is not None:
-        raise EngineError(f'ufunc {ufunc.__name__} with out=')
+        if len(out) != 1 or not isinstance(out[0], SymArray):
+            raise EngineError(f'ufunc {ufunc.__name__} with out= of kind {type(out[0]).__name__}')
+        res = array_ufunc(ufunc, method, inputs, None, kwargs)
+        tgt = out[0]
+        tgt[...] = res
+        return tgt
     pin = [plain(x) if isinstance(x, np.ndarray) else x for x in inputs]
     sds = [x._sd if isinstance(x, SymArray) else None for x in inputs]
     name = ufunc.__name__
